@@ -108,7 +108,9 @@ def out_display(kind=0):
     data = [{'text/plain': '<Figure>', 'image/png': B64},
             {'text/plain': '<Figure 2>', 'image/png': B64_2},
             {'application/json': {'a': [1, {'b': 2}], 'id': 7}, 'text/plain': '{...}', 'text/LaTeX': '$a_1$\n'},   # media type with capitals
-            {'text/html': '<b>x</b>\n<i>y</i>\n', 'text/plain': 'x y'}][kind % 4]
+            {'text/html': '<b>x</b>\n<i>y</i>\n', 'text/plain': 'x y',
+             # non-text payloads that are plain strings: a short (under 64 characters) base64 image and a vendor JSON string
+             'image/gif': GIF56, 'application/vnd.loader.v0+json': 'require(["lib@1.14.6"], function(lib) { lib.embed("el-1"); })'}][kind % 4]
     return {'output_type': 'display_data', 'data': copy.deepcopy(data), 'metadata': {} if kind % 2 == 0 else {'image/png': {'width': 10}}}
 
 
@@ -116,7 +118,11 @@ def out_result(n=1, text='2'):
     return {'output_type': 'execute_result', 'data': {'text/plain': text}, 'metadata': {}, 'execution_count': n}
 
 
-OUTPUTS = [lambda: out_stream(), lambda: out_stream('warn\nmore\n', 'stderr'), out_error,
+GIF56 = 'R0lGODlhAQABAIAAAAAAAP///yH5BAEAAAAALAAAAAABAAEAAAIBRAA7'      # 56 characters: a 1x1 gif
+
+
+OUTPUTS = [lambda: out_display(3), lambda: out_stream('epoch 1: 10%\repoch 1: 50%\repoch 1: 100%'),   # \r progress bar WITHOUT any newline
+           lambda: out_stream(), lambda: out_stream('warn\nmore\n', 'stderr'), out_error,
            lambda: out_display(0), lambda: out_display(2), lambda: out_result(1, '2'), lambda: out_result(3, '<obj at 0x7f3a2c1b9d30>')]
 
 
@@ -171,7 +177,11 @@ def cell_pool():
         code_cell(LONG_SOURCE, [out_stream('done\n')], 7),
         code_cell('a = 0\rb = 1\nc = 2\x0cd = 3\ne = 5\nf = 6\n', [out_stream(' 10%\r 50%\r100%\nloss: 0.5\nelapsed: 1.51 s\n', 'stderr')], 8,
                   {'f': None, 'g': 0}),
-        md_cell('first\u2028second\nthird\x85fourth\nfifth\n', None, {'f': '', 'g': []}),
+        md_cell('first\u2028second\nthird\x85fourth\nfifth\n', None, {'f': '', 'g': [], 'notes': {'\u00b2': {'v': 0}, '7': {'v': 0}, '\u2460': 's0'}}),
+        # line breaks but not a single newline character: a \r progress bar as stream text, form feeds in the source
+        code_cell('page_one = 1\x0cpage_two = 2\x0cpage_three = 3', [out_stream('epoch 1: 10%\repoch 1: 50%\repoch 1: 100%')], 9),
+        # short string payloads that are not text: a 56-character base64 image, a vendor JSON string
+        code_cell('viz()\n', [out_display(3)], 10),
     ]
 
 
@@ -285,9 +295,17 @@ def apply_edit(nb, op, rnd, where=None):
         if tgt and rnd.random() < 0.5:
             js = tgt[0]['data']['application/json']
             js['id'] = js.get('id', 0) + 1
-        else:
+        elif rnd.random() < 0.5:
             k = rnd.choice(['id', 'execution_count', 'attachments'])
             c['metadata'][k] = 'm%d' % rnd.randrange(1000)
+        else:
+            # keys that look like numbers (or almost): digits, signed, superscript / circled / other-script digits, padded
+            note = c['metadata'].setdefault('notes', nbformat.from_dict({}))
+            k = rnd.choice(['7', '-5', '+3', '007', '\u00b2', '\u2460', '\u0663', ' 1', '1.0'])
+            if len(note) and rnd.random() < 0.6:
+                k = rnd.choice(sorted(note))          # change the value under a key the base already has
+            cur = note.get(k)
+            note[k] = nbformat.from_dict({'v': (cur or {}).get('v', 0) + 1}) if not isinstance(cur, str) and rnd.random() < 0.7 else 's%d' % rnd.randrange(100)
     elif op == 'source_last_lines':
         # edit the last line(s) of a multi-line string (source or stream text) without touching earlier ones
         c = cells[i]
@@ -341,6 +359,13 @@ def apply_edit(nb, op, rnd, where=None):
                     o['traceback'] = list(o['traceback']) + ['  File "x.py", line %d' % rnd.randint(1, 9)]
                 else:
                     o['data']['text/plain'] = o['data'].get('text/plain', '') + rnd.choice(['!', ' (new)'])
+                    # short non-text string payloads: change one or two characters (a different image / library version)
+                    if 'image/gif' in o['data'] and rnd.random() < 0.6:
+                        g = o['data']['image/gif']
+                        o['data']['image/gif'] = g[:30] + ('B' if g[30] != 'B' else 'C') + g[31:]
+                    if 'application/vnd.loader.v0+json' in o['data'] and rnd.random() < 0.6:
+                        o['data']['application/vnd.loader.v0+json'] = o['data']['application/vnd.loader.v0+json'].replace('1.14.6', '1.14.7') \
+                            if '1.14.6' in o['data']['application/vnd.loader.v0+json'] else o['data']['application/vnd.loader.v0+json'].replace('1.14.7', '1.14.6')
                     for mk in [m for m in o['data'] if m != m.lower() and isinstance(o['data'][m], str)]:
                         if rnd.random() < 0.7:
                             o['data'][mk] = o['data'][mk] + rnd.choice(['$b$\n', '%'])
@@ -366,7 +391,11 @@ def apply_edit(nb, op, rnd, where=None):
                 c['attachments'] = nbformat.from_dict({'g.png': {'image/png': B64_2}})
             else:
                 r = rnd.random()
-                if r < 0.4 and att:
+                if r < 0.2 and att:
+                    k = sorted(att)[0]
+                    cur = att[k].get('image/gif', GIF56)
+                    att[k] = nbformat.from_dict({'image/gif': cur[:30] + ('B' if cur[30] != 'B' else 'C') + cur[31:]})
+                elif r < 0.4 and att:
                     k = sorted(att)[0]
                     att[k] = nbformat.from_dict({'image/png': B64_2 if att[k].get('image/png') == B64 else B64})
                 elif r < 0.7:
